@@ -471,7 +471,9 @@ Definition reverse_position_reply (w : world) (input output : Z) : res (world * 
   let vamm := ts_vamm swap in let trader := ts_trader swap in
   let p := get_position (w_eng w) (w_env w) vamm trader (ts_side swap) in
   do st1 <- update_open_interest_notional w st vamm (sneg_ output) trader;
-  let previous_margin := sneg_ (p_margin p) in
+  do rm0 <- calc_remain_margin w vamm p szero;       (* the old position is settled here: funding owed is charged *)
+  let '(_, margin_after_funding, _, _) := rm0 in
+  let previous_margin := sneg_ margin_after_funding in
   let p' := clear_position p (height (w_env w)) in
   let current_open_notional := ts_open_notional swap in
   do new_on <- if output <? ts_open_notional swap then csub (ts_open_notional swap) output
